@@ -4,7 +4,7 @@
   The theorems of C13 about `hashName` (form, depth, leading `$`, component-wise, injective modulo the truncated digest) are thereby
   statements about the source text of `HashName`; SHA-256 itself, `strings.Split` / `Join` and `%x` are the model's (corresponded).
 -/
-import Anonymongo.Props.Src.Basic
+import Anonymongo.Props.Src.Base
 import Anonymongo.Props.C13
 namespace Anonymongo.Src
 open Anonymongo Anonymongo.Go
